@@ -1,4 +1,5 @@
 import OV.Lemmas.C01Scope
+import OV.Lemmas.C01SimFor
 import OV.Lemmas.C01Total
 /-!
 # C02 — every proto the converter emits is well-formed ONNX; bad programs are refused
@@ -30,8 +31,12 @@ subgraph outputs):
 
 Before the two fixes `convert_wf` needed the hypothesis that no parameter is re-assigned and the
 subgraph-distinctness clause was false (findings C01-D26, C01-D30); their witnesses are now positive
-regression examples below (`d26`, `d30`).  Still refuted for the code as it is: `nested_param_not_fresh_witness`
-(D19, nested `@graph` functions, outside the model).
+regression examples below (`d26`, `d30`).  Subscripts with constant indices are part of the model (the node
+emission of `_translate_subscript_expr`: Constant / Concat / Slice / Squeeze / Gather and the per-expression
+constant cache), so `convert_wf` and `convert_single_assignment` cover them (`subDemo`).  D19 (nested `@graph`
+functions, outside the model: their parameters bypassed `_generate_unique_name`) is fixed by 9fe7eb1:
+`nested_params_fresh`.  The two converter crashes found in this round are fixed as well:
+`full_slice_subscript_is_identity_witness` (C01-D37, 35a0ff1), `stateless_loop_refused` (C01-D38, fc696f7).
 -/
 namespace OV.Props.C02
 open OV.C01
@@ -220,14 +225,78 @@ example : (match convert d30 with
     | .ok g => wfGraph g && thenOutsOfFirstIf g.nodes == ["x", "z"]
     | .error _ => false) = true := by decide +kernel
 
-/-- Finding D19, the decision that causes it, in isolation: `_translate_function_signature_common` adds a
-nested function's parameter names to `_used_vars` and uses them as the subgraph's input names *without*
-passing them through `_generate_unique_name`.  `nestedParams used ps` is that step; it returns the input
-names of the subgraph. -/
-def nestedParams (used : List Name) (ps : List Name) : List Name × List Name := (ps, ps ++ used)
+/-! ### Constant subscripts -/
 
-theorem nested_param_not_fresh_witness :
-    ∃ used ps, "zero" ∈ used ∧ "zero" ∈ (nestedParams used ps).1 :=
-  ⟨["zero", "X"], ["zero", "nxt"], by decide, by decide⟩
+/-- Non-vacuity of `convert_wf` / `convert_single_assignment` on subscripts: `x = A[0:1, 1]; if c: y = x[0] else:
+y = A[1, 0:2][::2]; return y` — Slice+Squeeze with a per-expression constant cache (the `1` of `0:1`, of the
+step and of the scalar index are ONE `Constant`), a `Gather` in one branch, two subscripts re-using the same
+integers in the other: accepted, and the emitted graph passes the executable checker. -/
+def subDemo : Func :=
+  { name := "f", params := [.tensor "A", .tensor "c"], retCount := none,
+    body := [
+      .assign "x" (.subscript (.var "A") [.slice (some 0) (some 1) none, .scalar 1]),
+      .ite (.var "c")
+        [.assign "y" (.subscript (.var "x") [.scalar 0])]
+        [.assign "y" (.subscript (.subscript (.var "A") [.scalar 1, .slice (some 0) (some 2) none])
+            [.slice none none (some 2)])],
+      .ret [.var "y"] false] }
+
+example : (match convert subDemo with
+    | .ok g => wfGraph g && nodupB (allDefsL g.nodes) && g.nodes.length == 11
+    | .error _ => false) = true := by decide +kernel
+
+/-- Regression witness of C01-D37 (fixed by 35a0ff1): a subscript without an effective index (`A[:]`, `A[:, :]`)
+used to crash the converter with an `AttributeError` (it handed `_emit1` the name of the base value instead of
+the value); now it is one `Identity` node, and the graph is well-formed. -/
+theorem full_slice_subscript_is_identity_witness :
+    (match convert { name := "f", params := [.tensor "A"], retCount := none,
+                     body := [.assign "x" (.subscript (.var "A") [.slice none none none, .slice none none none]),
+                              .ret [.var "x"] false] } with
+     | .ok g => wfGraph g && (match g.nodes with
+                              | [.op _ "Identity" [some a] [_] _] => a == "A"
+                              | _ => false)
+     | .error _ => false) = true := by
+  decide +kernel
+
+/-- **A loop that carries no state is refused** (C01-D38, fixed by fc696f7).  Nothing assigned in its body is read
+in a later iteration or after the loop, so the `Loop` node would have no outputs; before the fix `_emit` evaluated
+`output_values[0]` on an empty list and the converter died with an `IndexError`.  Now, whatever the scope, bound or
+condition, body and converter state, `convStmt` fails (TranslationError). -/
+theorem stateless_loop_refused (L : Locals) (body : List Stmt) (lo : VSet) (hs : loopState body lo = some [])
+    (s : St) (r : (Locals × List Node) × St) :
+    (∀ i ok b, convStmt L (.for_ i ok b body) lo s ≠ .ok r) ∧
+    (∀ t, convStmt L (.while_ (.var t) body) lo s ≠ .ok r) :=
+  ⟨fun i ok b => stateless_for_refused L i ok b body lo hs s r,
+   fun t => stateless_while_refused L t body lo hs s r⟩
+
+/-- Regression witness of C01-D38: `x = A; for i in range(2): x = B + 1.0; x = -B; return x`. -/
+example :
+    (match convert { name := "f", params := [.tensor "A", .tensor "B"], retCount := none,
+                     body := [.assign "x" (.var "A"),
+                              .for_ "i" true (.lit (.int 2)) [.assign "x" (.binop "Add" (.var "B") (.lit (.flt false "1.0")))],
+                              .assign "x" (.unop "USub" (.var "B")),
+                              .ret [.var "x"] false] } with
+     | .error .translation => true
+     | _ => false) = true := by
+  decide +kernel
+
+/-- Finding D19 (fixed by 9fe7eb1), the decision in isolation: `_translate_function_signature_common` used to add a
+nested function's parameter names to `_used_vars` and use them as the subgraph's input names *without* passing
+them through `_generate_unique_name` (`def Sum(zero, nxt)` inside a function that defines `zero` gave a Scan
+body redefining `zero`).  Now every parameter of a nested function goes through `_generate_unique_name`:
+`nestedParams ps` is that step; it returns the input names of the subgraph. -/
+def nestedParams (ps : List Name) : M (List Name) := genUniques ps
+
+/-- **Nested-function parameters are fresh** (positive restatement after 9fe7eb1): the subgraph's input names
+are pairwise distinct, none was in use in the enclosing function, and all are recorded as used. -/
+theorem nested_params_fresh (ps rs : List Name) (s s' : St) (h : nestedParams ps s = .ok (rs, s')) :
+    rs.Nodup ∧ (∀ r, r ∈ rs → r ∉ s.used ∧ r ∈ s'.used) ∧ rs.length = ps.length := by
+  obtain ⟨_, f, l⟩ := genUniques_fresh ps h
+  exact ⟨f.1, f.2, l⟩
+
+/-- Regression witness of D19: `zero` is in use, the nested parameter `zero` becomes `zero_0`. -/
+example : (match nestedParams ["zero", "nxt"] { used := ["zero", "X"], next := 0, castable := [] } with
+    | .ok (rs, _) => rs == ["zero_0", "nxt"]
+    | .error _ => false) = true := by decide +kernel
 
 end OV.Props.C02
